@@ -173,7 +173,10 @@ def single_suite(ctx, oracles, gen_kwargs_list, count, items=None):
         failed = len(trees) == 1 and trees[0].score == -float('inf')
         stats['failed' if failed else 'parsed'] += 1
         admitted = S.admitted_tags(p)
-        if 'optimal' in oracles and p.n <= 4:
+        # a tag whose probability ratio to the best one is within rounding distance of beta is borderline: it
+        # may or may not be admitted, so the enumeration oracle speaks only when there is none
+        beam_exact = (not p.use_beta) or all(s == m for (s, _), m in zip(S.admitted_tags(p, margin=True), admitted))
+        if 'optimal' in oracles and p.n <= 4 and beam_exact:
             try:
                 chart = S.enumerate_derivations(p, admitted, limit=60000)
                 roots = S.root_derivations(p, chart)
@@ -442,7 +445,7 @@ def lazy_case(rng, lang, m, with_seen, with_beta, dup=False, chunking=None):
         bfun = functools.partial(mod.apply_binary_rules, seen_rules=grammar_common.seen_set(variant))
     if with_beta:
         base.use_beta = True
-        base.beta = rng.choice([0.5, 0.1, 0.001])
+        base.beta = rng.choice([0.5, 0.1, 0.001, 1.0, 2.0])
         base.pruning = rng.choice([1, 2, 3, 50, 0])
     max_length = rng.choice([250, 250, 3])
     if dup:
